@@ -3,10 +3,11 @@
 (* Exhaustive model checking of the precise seat-manager model against      *)
 (* SeatProps (C08, C17, C18): all histories of Join (every seat incl. -2,   *)
 (* -1 = any, Max, Max+1), SitIn, Reserve, Leave (every seat incl. out of    *)
-(* range) and Next on MaxSeats seats with the player ids of Players.        *)
+(* range), Next and Reset on MaxSeats seats with the player ids of Players. *)
 (***************************************************************************)
 EXTENDS SeatProps
 CONSTANTS MaxSeats, Players, Props,
+          WithReset,   \* Reset() is part of the alphabet
           Ignore   \* clause names of recorded known findings (they are reported from real traces, not from the model)
 VARIABLES m, out, h
 vars == <<m, out, h>>
@@ -27,6 +28,7 @@ Next ==
      \/ \E s \in -1..MaxSeats : \/ Do("SitIn", s, -1, -1, OpSitIn(m, s)) \/ Do("Reserve", s, -1, -1, OpReserve(m, s))
                                 \/ Do("Leave", s, -1, -1, OpLeave(m, s))
      \/ Do("Next", -1, -1, -1, OpNext(m))
+     \/ (WithReset /\ Do("Reset", -1, -1, -1, OpReset(m)))
 Spec == Init /\ [][Next]_vars
 \* the join/leave counters grow forever: they stay out of the view (the relation they are used in is inductive)
 View == <<m, h.track, h.occAtNext, h.posAtNext>>
